@@ -20,6 +20,21 @@ type lost struct {
 	NBytes int // number of payload bytes with unexplained bits in this box
 }
 
+// keyClass names the codec a box type is decoded by: all visual sample
+// entries share one decoder/encoder pair, as do all audio sample entries, so
+// a lost field there is one finding, not one per four-character code.
+func keyClass(t string) string {
+	switch t {
+	case "avc1", "avc3", "hvc1", "hev1", "encv", "av01", "vp08", "vp09":
+		return "VisualSampleEntry"
+	case "mp4a", "enca", "ac-3", "ec-3":
+		return "AudioSampleEntry"
+	case "tlou", "alou":
+		return "LoudnessBaseBox"
+	}
+	return safeType(t)
+}
+
 func (l lost) key() string {
 	switch l.Kind {
 	case "bits":
@@ -31,9 +46,9 @@ func (l lost) key() string {
 		if l.Off == 0 {
 			ver = "*" // the differing byte is the version byte itself
 		}
-		return fmt.Sprintf("lost-bits/%s/v%s/+%s", l.Type, ver, off)
+		return fmt.Sprintf("lost-bits/%s/v%s/+%s", keyClass(l.Type), ver, off)
 	default:
-		return "lost-" + l.Kind + "/" + l.Type
+		return "lost-" + l.Kind + "/" + keyClass(l.Type)
 	}
 }
 
@@ -135,7 +150,10 @@ func (s *cmp) node(a, b *boxwalk.Node) {
 		s.addLost(lost{Kind: "type", Type: a.Type, Path: a.Path(), What: a.Path() + ": container form changed"})
 		return
 	}
-	if a.Container {
+	// VTTEmptyCueBox is defined without content (14496-30): the walker's
+	// generic container table descends into it, the comparison treats it as a
+	// leaf so that N3 applies to whatever it holds.
+	if a.Container && a.Type != "vtte" {
 		fa := pa[:a.BodyOff-a.HdrLen]
 		fb := pb[:b.BodyOff-b.HdrLen]
 		if len(fa) != len(fb) {
